@@ -34,7 +34,26 @@ _REAL_TRUNC = GS.compute_truncation
 def _trunc_stub(model, h, truncation_probability=0.99999):
     if V.get_context() is None or _TRUNC["lr"] is None:
         return _REAL_TRUNC(model=model, h=h, truncation_probability=truncation_probability)
+    _TRUNC["seen"] = truncation_probability
     return _TRUNC["lr"]
+
+
+def replay_truncation_probability(sc):
+    """real constructors on a HEM model: the reported end points are the bounds of the requested truncation probability"""
+    import rpylib.model.levymodel.mixed.hem as HEM
+
+    model = HEM.HEMModel(HEM.HEMParameters(sigma=0.1, p=0.4, eta1=25.0, eta2=30.0, intensity=3.0))
+    out = []
+    for prob in (0.9, 0.999):
+        want = _REAL_TRUNC(model=model, h=0.01, truncation_probability=prob)
+        for name, build in (("CTMCUniformGrid", lambda: GS.CTMCUniformGrid(h=0.01, model=model, truncation_probability=prob)),
+                            ("CTMCGridGeometric", lambda: GS.CTMCGridGeometric(h=0.01, model=model, nb_of_points_on_each_side=4, truncation_probability=prob))):
+            ax = np.asarray(build().axes[0], dtype=float)
+            # the uniform grid rounds the bounds to multiples of h: within h of the requested bounds; the geometric grid ends exactly on them
+            tol = 0.01 + 1e-12 if name == "CTMCUniformGrid" else 1e-9
+            if abs(ax[0] - want[0]) > tol or abs(ax[-1] - want[1]) > tol:
+                out.append(f"{name}(h=0.01, HEM, truncation_probability={prob}): end points ({ax[0]:.5f}, {ax[-1]:.5f}), bounds of that probability ({want[0]:.5f}, {want[1]:.5f})")
+    return bool(out), "; ".join(out[:2]) if out else "end points follow the requested truncation probability"
 
 
 GS.compute_truncation = _trunc_stub
@@ -90,10 +109,13 @@ def h_uniform(ctx, d):
     ctx.assume(h > 0)
     l, r = sym_truncation(ctx, h, 4)
     _TRUNC["lr"] = (l, r)
+    prob = ctx.real("truncation_probability", 0, 1, lo_strict=True, hi_strict=True)
     try:
-        grid = GS.CTMCUniformGrid(h=h, model=StubModel(d))
+        grid = GS.CTMCUniformGrid(h=h, model=StubModel(d), truncation_probability=prob)
     finally:
         _TRUNC["lr"] = None
+    ctx.prove("C13.bounds_are_computed_for_the_requested_truncation_probability", _TRUNC.get("seen") is prob or EQ(_TRUNC.get("seen"), prob), info={"grid": "uniform", "d": d},
+              replay=(replay_truncation_probability, lambda m: {}))
     nl = grid.origin_coordinate.value if d == 1 else grid.origin_coordinate.value[0]
     nr = len(grid.axes[0]) - nl - 1
     regions = {"fewer_than_two_points_on_a_side": nl < 2 or nr < 2}
@@ -118,10 +140,13 @@ def h_geometric(ctx, npts, d, with_bounds):
         grid = GS.CTMCGridGeometric.create_with_bounds(h=h, truncations=(l, r), dimension=d, nb_of_points_on_each_side=npts)
     else:
         _TRUNC["lr"] = (l, r)
+        prob = ctx.real("truncation_probability", 0, 1, lo_strict=True, hi_strict=True)
         try:
-            grid = GS.CTMCGridGeometric(h=h, model=StubModel(d), nb_of_points_on_each_side=npts)
+            grid = GS.CTMCGridGeometric(h=h, model=StubModel(d), nb_of_points_on_each_side=npts, truncation_probability=prob)
         finally:
             _TRUNC["lr"] = None
+        ctx.prove("C13.bounds_are_computed_for_the_requested_truncation_probability", _TRUNC.get("seen") is prob or EQ(_TRUNC.get("seen"), prob), info={"grid": "geometric", "d": d},
+                  replay=(replay_truncation_probability, lambda m: {}))
     well_formed(ctx, grid, h, l, r, "C13.geometric", {"npts": npts, "d": d, "with_bounds": with_bounds})
     ctx.prove("C13.geometric.points_per_side", len(grid.axes[0]) == 2 * npts + 1, info={"npts": npts})
 
@@ -411,7 +436,7 @@ def harnesses(tier):
 
 EXPECT = ["C13.truncation.every_margin_keeps_at_least_the_promised_share", "C13.pstep.refine.new_states_split_the_gap_mass_in_half", "C13.pstep.refine.h_halves_and_origin_neighbours_are_pm_h", "C13.uniform.strictly_increasing", "C13.uniform.zero_at_origin_index_with_pm_h_neighbours", "C13.fixed_size.strictly_increasing", "C13.geometric.strictly_increasing",
           "C13.credit.strictly_increasing", "C13.credit.threshold_on_cell_boundary", "C13.refine.old_states_kept_at_scaled_index", "C13.refine.new_states_are_cell_boundaries",
-          "C13.refine.h_halves", "C13.refine.truncations_unchanged"]
+          "C13.refine.h_halves", "C13.refine.truncations_unchanged", "C13.bounds_are_computed_for_the_requested_truncation_probability"]
 
 
 # stronger than the property ("a target tail probability" is met by keeping at least the share): reported, not claimed
